@@ -588,6 +588,9 @@ theorem childOp_balance (k : Kind) (st : St) (op : Op) (hi : SInv st) (hc : chil
   | peof slot =>
     obtain ⟨p1, p2, p3, p4, _, _⟩ := pipeEof_balance k st slot hi
     exact ⟨p1, p2, p3, p4⟩
+  | cclose slot =>
+    have e : ostep k st (.cclose slot) = (st, []) := rfl
+    rw [e]; exact ⟨by simp [nReports, reportsOf], rfl, hi, rfl⟩
 
 theorem ostep_balance (k : Kind) (st : St) (op : Op) (hi : SInv st) (hr : st.reading = true) (hne : op ≠ .eof) :
     nReports (ostep k st op).2 + usedCount (ostep k st op).1 = usedCount st + countCmds st.stage (inputOf [op]) ∧
@@ -607,6 +610,7 @@ theorem ostep_balance (k : Kind) (st : St) (op : Op) (hi : SInv st) (hr : st.rea
     | exit slot wstat => simp [childOp] at hc
     | reap slot wstat => simp [childOp] at hc
     | peof slot => simp [childOp] at hc
+    | cclose slot => simp [childOp] at hc
 
 /-- after the end of input: commands are no longer read, every event keeps the balance -/
 theorem ostep_closed (k : Kind) (st : St) (op : Op) (hi : SInv st) (hr : st.reading = false) :
@@ -626,6 +630,7 @@ theorem ostep_closed (k : Kind) (st : St) (op : Op) (hi : SInv st) (hr : st.read
     | exit slot wstat => simp [childOp] at hc
     | reap slot wstat => simp [childOp] at hc
     | peof slot => simp [childOp] at hc
+    | cclose slot => simp [childOp] at hc
 
 theorem inputOf_cons (op : Op) (r : List Op) (hne : op ≠ .eof) : inputOf (op :: r) = inputOf [op] ++ inputOf r := by
   cases op <;> simp [inputOf] at hne ⊢
@@ -824,6 +829,7 @@ theorem ostep_exited (k : Kind) (st : St) (op : Op) (h : exited st = true) : ost
   | eof => simp only [ostep, stopReading_of_closed st hr]
   | reap slot wstat => simp only [ostep, reap, hn slot]
   | peof slot => simp only [ostep, pipeEof, hn slot]
+  | cclose slot => rfl
 
 theorem orun_exited (k : Kind) (st : St) (ops : List Op) (h : exited st = true) : orun k st ops = (st, []) := by
   induction ops with
